@@ -389,7 +389,7 @@ func genC08(r *RNG, avoid bool) *SrvPlan {
 				id = next
 				op.StreamRef = id
 			}
-			op.Fields = []HF{{":method", "POST"}, {":scheme", "https"}, {":path", fmt.Sprintf("/w/%d", i)}, {":authority", "example.com"}, {"x-rid", fmt.Sprint(i)}}
+			op.Fields = []HF{{":method", "POST"}, {":scheme", "https"}, {":path", fmt.Sprintf("/w/%d", i)}, {":authority", "example.com"}, {"x-rid", fmt.Sprint(id)}}
 			op.EndStream = r.Intn(2) == 0
 			op.NoEndHdrs = r.Intn(4) == 0
 			if id >= next && id%2 == 1 {
@@ -621,12 +621,12 @@ func RunC08(plan *SrvPlan, tape *Tape, searchSeed uint64) *RunResult {
 		w.peerReceive()
 		// the handler may run only for requests the model saw completed legally
 		for rid, cnt := range w.Entries {
-			if rid < 0 || rid >= len(ops) {
+			if rid < 0 {
 				continue
 			}
-			id := uint32(ops[rid].StreamRef)
+			id := uint32(rid) // walk requests carry their stream id in x-rid
 			if cnt > 1 {
-				sim.Viol = &Violation{Property: "C08", Rule: "dispatched-twice", Sig: prioPre(prioIdle) + "dispatched-twice", Detail: fmt.Sprintf("the request opened by walk frame %d (stream %d) was dispatched %d times; walk: %s", rid, id, cnt, strings.Join(steps, " "))}
+				sim.Viol = &Violation{Property: "C08", Rule: "dispatched-twice", Sig: prioPre(prioIdle) + "dispatched-twice", Detail: fmt.Sprintf("the request on stream %d (x-rid %d) was dispatched %d times; walk: %s", id, rid, cnt, strings.Join(steps, " "))}
 			} else if !m.everComplete(id) {
 				sim.Viol = &Violation{Property: "C08", Rule: "dispatched-incomplete", Sig: prioPre(prioIdle) + "dispatched-incomplete/" + strings.ReplaceAll(m.state(id).String(), " ", "-"),
 					Detail: fmt.Sprintf("the handler ran for stream %d whose request never completed legally (model state %s); walk: %s", id, m.state(id), strings.Join(steps, " "))}
